@@ -231,7 +231,9 @@ std::tuple<int, int, float, float> NetModel::maxPin(
   float bestPos = bestO;
   for (int i = 0; i < nbPins(net); ++i) {
     float pos = pinPosition(net, i, pl);
-    if (pos > bestPos) {
+    // Ties go to the last pin (minPin takes the first one): the two bounds of
+    // a net are distinct pins even when all its pins are at the same position
+    if (pos >= bestPos) {
       bestI = i;
       bestC = pinCell(net, i);
       bestO = pinOffset(net, i);
